@@ -39,12 +39,14 @@ var c13Roles = []c13Role{
 	{"pm", 1, func(s string, v int) (string, map[string]string) {
 		return fmt.Sprintf("SecRule ARGS \"@pm %s\" \"id:1,phase:1,deny,status:401\"\n", s), nil
 	}},
-	{"pmds", 2, func(s string, v int) (string, map[string]string) {
-		content := []string{"abc\nzzz\nevil", "qqq\nx1"}[v]
+	{"pmds", 3, func(s string, v int) (string, map[string]string) {
+		// variant 2: ONE entry that is a phrase with a space - the same text as
+		// the two-word list of the "pmname" role
+		content := []string{"abc\nzzz\nevil", "qqq\nx1", s + " zzz"}[v]
 		return fmt.Sprintf("SecDataset %s `\n%s\n`\nSecRule ARGS \"@pmFromDataset %s\" \"id:2,phase:1,deny,status:402\"\n", s, content, s), nil
 	}},
-	{"pmfile", 2, func(s string, v int) (string, map[string]string) {
-		content := []string{"abc\nzzz\nevil\n", "qqq\nx1\n"}[v]
+	{"pmfile", 3, func(s string, v int) (string, map[string]string) {
+		content := []string{"abc\nzzz\nevil\n", "qqq\nx1\n", s + " zzz\n"}[v]
 		return fmt.Sprintf("SecRule ARGS \"@pmFromFile %s\" \"id:3,phase:1,deny,status:403\"\n", s), map[string]string{s: content}
 	}},
 	{"rxkey", 1, func(s string, v int) (string, map[string]string) {
